@@ -253,7 +253,7 @@ func main() {
 	// 3. random larger programs: mostly linear by construction, half of them with an injected edit
 	nrand := 1100
 	if thorough {
-		nrand = 30000
+		nrand = 20000
 	}
 	for i := 0; i < nrand; i++ {
 		size := 3 + rng.Intn(18)
